@@ -137,7 +137,7 @@ func genWire(r *Rand, g GenCfg) Plan {
 		for i := 0; i < 3*nn; i++ {
 			t := r.Intn(2)
 			f := Pick(r, []string{"aud", "sub", "iss"})
-			add(XStep{Op: "hostile", Tok: t, Kind: "bad_did", Field: f, Val: r.Intn(8), At: r.Intn(256)})
+			add(XStep{Op: "hostile", Tok: t, Kind: "bad_did", Field: f, Val: r.Intn(64), At: r.Intn(512), Depth: 100 + r.Intn(2)})
 			add(XStep{Op: "hostile", Tok: r.Intn(2), Kind: "hostile_len", At: r.Intn(200), Val: r.Intn(2)})
 		}
 		for v := 0; v < 11; v++ {
@@ -184,7 +184,7 @@ func genWire(r *Rand, g GenCfg) Plan {
 				}
 			}
 			for _, f := range []string{"nbf", "exp", "iat", "args", "pol", "meta"} {
-				for v := 0; v < 7; v++ {
+				for v := 0; v < 32; v++ {
 					if all && v > 1 {
 						break
 					}
@@ -197,9 +197,9 @@ func genWire(r *Rand, g GenCfg) Plan {
 			for v := 0; v < 6; v++ {
 				add(XStep{Op: "byz", Tok: t, Field: "cmd", How: "bad_cmd", Val: v})
 			}
-			for v := 0; v < 4; v++ {
+			for v := 0; v < 8; v++ {
 				add(XStep{Op: "byz", Tok: t, Field: "tag", How: "other_tag", Val: v})
-				add(XStep{Op: "byz", Tok: t, Field: "sp", How: "sp_shape", Val: v})
+				add(XStep{Op: "byz", Tok: t, Field: "sp", How: "sp_shape", Val: v + 4*r.Intn(3)})
 			}
 		}
 		for i, tv := range argTypeTable {
